@@ -565,4 +565,49 @@ def silentSub : GroupRun :=
     signOf := fun i _ => [UInt8.ofNat i], honest := [0, 2], fcOf := fun _ => [] }
 
 
+/-! ### the stage wiring of `handleQuery` as data (regenerated: `Gen.QueryLoopFacts.handleQueryWiring`) -/
+
+/-- one stage call: (switch case label or "", callee, results, arguments) -/
+abbrev Wire := String × String × List String × List String
+
+/-- the stage calls that take channel `c` as an argument -/
+def consumers (ws : List Wire) (c : String) : List Wire := ws.filter (fun w => w.2.2.2.contains c)
+
+/-- follow the data from channel `c`: the callees that consume it, then the first result of (the first
+of) them, and so on – the pipeline order DERIVED from which call reads which call's result -/
+def pipelineFrom (ws : List Wire) : Nat → String → List (List String)
+  | 0, _ => []
+  | fuel + 1, c =>
+    match consumers ws c with
+    | [] => []
+    | w :: rest =>
+      ((w :: rest).map (·.2.1)) ::
+        (match w.2.2.1 with
+         | o :: _ => pipelineFrom ws fuel o
+         | [] => [])
+
+/-! ### the deadline: a stage that has returned is frozen -/
+
+theorem stageStep_stopped (C : Crypto) (t a : Nat) (st : StageSt) (m : Option Msg) (x : Stop)
+    (h : st.stop = some x) : stageStep C t a st m = st := by
+  simp [stageStep, h]
+
+theorem fold_stopped (C : Crypto) (t a : Nat) (ms : List (Option Msg)) : ∀ (st : StageSt) (x : Stop),
+    st.stop = some x → ms.foldl (stageStep C t a) st = st := by
+  induction ms with
+  | nil => intro st x _; rfl
+  | cons m ms ih => intro st x h; rw [List.foldl_cons, stageStep_stopped C t a st m x h]; exact ih st x h
+
+/-- cutting the input of the stage (the deadline fires, the collector stops delivering) can only SUPPRESS
+the report: if the stage emitted on the prefix, the whole run is that very state -/
+theorem stage_prefix (C : Crypto) (t a : Nat) (ms₁ ms₂ : List (Option Msg))
+    (h : (recoverStage C t a ms₁).out ≠ []) :
+    recoverStage C t a (ms₁ ++ ms₂) = recoverStage C t a ms₁ := by
+  unfold recoverStage at *
+  rw [List.foldl_append]
+  have hs := safe_fold C t a ms₁ _ (safe_init C a)
+  cases hstop : (ms₁.foldl (stageStep C t a) StageSt.init).stop with
+  | none => exact absurd (hs.running hstop) h
+  | some x => exact fold_stopped C t a ms₂ _ x hstop
+
 end Dos.Query
